@@ -452,64 +452,71 @@ def packShared (packed : List Obj) (o : Obj) : List Obj × Nat :=
   | some i => (packed, i)
   | none => (packed ++ [o], packed.length)
 
-/-- `Cmap14::serialize`: the packed objects (children first, then nothing for the table itself — the
-table object is returned separately) . `none` = trap.  Result: the cmap14 object, or `none` when it
-subsets to empty. -/
-def serialize14Go (p : PlanIn) : List VarSelIn → List Obj → Option (List Obj × List (VarSelIn × Option Nat × Option Nat))
-  | [], packed => some (packed, [])
-  | r :: rest, packed =>
-    -- records are processed in reverse order: the tail first
-    match serialize14Go p rest packed with
-    | none => none
-    | some (packed, done) =>
-      -- non-default UVS first
-      let nd : Option (List Obj × Option Nat) :=
-        match r.nonDefaults with
-        | none => some (packed, none)
-        | some maps =>
-          match copyNonDefault p maps with
-          | none => none
-          | some (b, n) =>
-            if n = 0 then some (packed, none)
-            else
-              let (pk, i) := packShared packed { bytes := be32 n ++ b, links := [] }
-              some (pk, some i)
-      match nd with
+/-- the two UVS tables `copy_var_selector_record_uvs_tables` builds for one record, before packing:
+(default UVS object, non-default UVS object), `none` inside = table absent or subset to empty
+(`pop_discard`); outer `none` = trap -/
+def uvsObjs (p : PlanIn) (r : VarSelIn) : Option (Option Obj × Option Obj) :=
+  let nd : Option (Option Obj) :=
+    match r.nonDefaults with
+    | none => some none
+    | some maps =>
+      match copyNonDefault p maps with
       | none => none
-      | some (packed, ndIdx) =>
-        let df : Option (List Obj × Option Nat) :=
-          match r.defaults with
-          | none => some (packed, none)
-          | some ranges =>
-            match copyDefault p ranges with
-            | none => none
-            | some rs =>
-              if rs.isEmpty then some (packed, none)
-              else
-                let (pk, i) := packShared packed
-                  { bytes := be32 rs.length ++ rs.flatMap (fun x => be24 x.1 ++ [x.2 % 256]), links := [] }
-                some (pk, some i)
-        match df with
-        | none => none
-        | some (packed, dfIdx) => some (packed, (r, dfIdx, ndIdx) :: done)
+      | some (b, n) => some (if n = 0 then none else some { bytes := be32 n ++ b, links := [] })
+  let df : Option (Option Obj) :=
+    match r.defaults with
+    | none => some none
+    | some ranges =>
+      match copyDefault p ranges with
+      | none => none
+      | some rs =>
+        some (if rs.isEmpty then none
+              else some { bytes := be32 rs.length ++ rs.flatMap (fun x => be24 x.1 ++ [x.2 % 256]), links := [] })
+  match nd, df with
+  | some n, some d => some (d, n)
+  | _, _ => none
+
+def packOpt (packed : List Obj) (o : Option Obj) : List Obj × Option Nat :=
+  match o with
+  | none => (packed, none)
+  | some o => let r := packShared packed o; (r.1, some r.2)
+
+/-- packing order of `Cmap14::serialize`: records last to first, per record the non-default table
+before the default table -/
+def packUvs : List (VarSelIn × Option Obj × Option Obj) → List Obj →
+    List Obj × List (VarSelIn × Option Nat × Option Nat)
+  | [], packed => (packed, [])
+  | (r, d, n) :: rest, packed =>
+    let r1 := packUvs rest packed
+    let r2 := packOpt r1.1 n
+    let r3 := packOpt r2.1 d
+    (r3.1, (r, r3.2, r2.2) :: r1.2)
 
 def objSize (o : Obj) : Nat := o.bytes.length
 
+/-- the variation selector records of the plan with their subset tables; `none` = trap -/
+def uvsRetained (p : PlanIn) (recs : List VarSelIn) : Option (List (VarSelIn × Option Obj × Option Obj)) :=
+  (recs.filter (fun r => p.unicodes.contains r.selector)).mapM
+    (fun r => (uvsObjs p r).map (fun x => (r, x.1, x.2)))
+
+/-- `Cmap14::serialize`.  Result: the packed objects and the cmap14 object, or `none` for the object
+when the subtable subsets to empty (snapshot reverted: `packed` unchanged). -/
 def serialize14 (p : PlanIn) (recs : List VarSelIn) (packed : List Obj) : Out (List Obj × Option Obj) :=
-  let retained := recs.filter (fun r => p.unicodes.contains r.selector)
-  match serialize14Go p retained packed with
+  match uvsRetained p recs with
   | none => .trap
-  | some (packed', done) =>
-    let kept := done.filter (fun x => x.2.1.isSome || x.2.2.isSome)
-    if kept.isEmpty then .ok (packed, none)          -- "subsetted to empty": revert the snapshot
+  | some objs =>
+    -- records whose two tables both vanished write no header
+    if objs.all (fun x => x.2.1.isNone && x.2.2.isNone) then .ok (packed, none)
     else
-      let tailLen := ((packed'.drop packed.length).map objSize).sum
+      let r := packUvs objs packed
+      let kept := r.2.filter (fun x => x.2.1.isSome || x.2.2.isSome)
+      let tailLen := ((r.1.drop packed.length).map objSize).sum
       let recBytes := kept.flatMap (fun x => be24 x.1.selector ++ be32 0 ++ be32 0)
       let links : List (Nat × Nat) := (kept.zipIdx).flatMap (fun (x, k) =>
         (match x.2.1 with | some i => [(10 + 11 * k + 3, i)] | none => []) ++
         (match x.2.2 with | some i => [(10 + 11 * k + 7, i)] | none => []))
       let len := 10 + 11 * kept.length + tailLen
-      .ok (packed', some { bytes := be16 14 ++ be32 len ++ be32 kept.length ++ recBytes, links := links })
+      .ok (r.1, some { bytes := be16 14 ++ be32 len ++ be32 kept.length ++ recBytes, links := links })
 
 /-! ## `Cmap::subset` / `serialize_cmap` -/
 
@@ -640,18 +647,21 @@ def layoutCmap (st : CmapSer) : List Nat :=
       b.take l.1 ++ off ++ b.drop (l.1 + 4)) o.bytes
   main ++ ((st.packed.zipIdx).reverse.flatMap (fun (o, k) => patch k o))
 
+def emptySer : CmapSer := { records := [], packed := [], has12 := false }
+
 /-- `serialize_cmap` incl. the retry without format 4 when a format 4 subtable overflows 64 KiB
-(reachable after fix 7720565 and its follow-up) -/
-def serializeCmap (p : PlanIn) (retained : List RecIn) : Out (List Nat) :=
-  let finish (st : CmapSer) (dropF4 : Bool) : Out (List Nat) :=
+(reachable after fix 7720565 and its follow-up).  Result: serializer state and whether the format 4
+subtables were dropped. -/
+def serializeCmapSt (p : PlanIn) (retained : List RecIn) : Out (CmapSer × Bool) :=
+  let finish (st : CmapSer) (dropF4 : Bool) : Out (CmapSer × Bool) :=
     if st.records.length > 65535 then .err "int-overflow"
     else if dropF4 && !st.has12 then .err "other"
-    else .ok (layoutCmap st)
-  match serializeCmapGo p retained false retained { records := [], packed := [], has12 := false } with
+    else .ok (st, dropF4)
+  match serializeCmapGo p retained false retained emptySer with
   | .trap => .trap
   | .ok st => finish st false
   | .err "int-overflow" =>
-    match serializeCmapGo p retained true retained { records := [], packed := [], has12 := false } with
+    match serializeCmapGo p retained true retained emptySer with
     | .trap => .trap
     | .err e => .err e
     | .ok st => finish st true
@@ -659,7 +669,7 @@ def serializeCmap (p : PlanIn) (retained : List RecIn) : Out (List Nat) :=
 
 /-- `Cmap::subset`: `.err` = `Err(SubsetTableError(cmap))`, which `subset_font` turns into a subset
 without cmap table (no serializer error) or into a failure (serializer error) -/
-def subsetCmap (recs : List RecIn) (p : PlanIn) : Out (List Nat) :=
+def subsetCmapSt (recs : List RecIn) (p : PlanIn) : Out (CmapSer × Bool) :=
   let retained := recs.filter retainRecord
   let hasFormat12 := retained.any (fun r => r.sub.format? == some 12)
   let hasUnicodeBmp := retained.any (fun r => r.platform == 0 && r.encoding == 3)
@@ -668,6 +678,13 @@ def subsetCmap (recs : List RecIn) (p : PlanIn) : Out (List Nat) :=
   let hasMsUcs4 := retained.any (fun r => r.platform == 3 && r.encoding == 10)
   if !hasFormat12 && !hasUnicodeBmp && !hasMsBmp then .err "no-unicode-record"
   else if hasFormat12 && !hasUnicodeUcs4 && !hasMsUcs4 then .err "format12-without-ucs4-record"
-  else serializeCmap p retained
+  else serializeCmapSt p retained
+
+/-- the bytes of the subset cmap table -/
+def subsetCmap (recs : List RecIn) (p : PlanIn) : Out (List Nat) :=
+  match subsetCmapSt recs p with
+  | .ok (st, _) => .ok (layoutCmap st)
+  | .err e => .err e
+  | .trap => .trap
 
 end FontVerif.SubsetCmap
